@@ -25,6 +25,7 @@ import (
 	"math/rand"
 	"os"
 	"path/filepath"
+	"sort"
 	"strings"
 	"testing"
 
@@ -38,7 +39,9 @@ import (
 	"github.com/ethereum/go-ethereum/internal/verifx/crashkv"
 	"github.com/ethereum/go-ethereum/log"
 	"github.com/ethereum/go-ethereum/params"
+	"github.com/ethereum/go-ethereum/rlp"
 	"github.com/ethereum/go-ethereum/trie"
+	"github.com/ethereum/go-ethereum/triedb"
 	"pgregory.net/rapid"
 	"verif.local/kit/crashfs"
 	vs "verif.local/kit/stat"
@@ -66,10 +69,18 @@ func (h c39CritHandler) WithGroup(string) slog.Handler      { return h }
 
 // ---------------------------------------------------------------------------
 // key-value hook layer on top of crashkv (observes, changes nothing)
+//
+// infl > 1 additionally makes every batch report ValueSize()*infl: all the
+// "batch >= ethdb.IdealBatchSize -> Write, Reset" branches of the code under test
+// (hashdb Commit/Cap, snapshot generator, freezer index clean-up, ...) then fire after
+// a few hundred bytes instead of 100 KB, exactly as if the values were that much
+// larger. The stored data is unchanged; only the batch boundaries (= possible crash
+// points, each recorded by crashkv as one atomic event) move closer together.
 
 type c39KV struct {
 	*crashkv.Store
 	after func() // called after every recorded event
+	infl  int
 }
 
 func (s *c39KV) Put(k, v []byte) error {
@@ -100,14 +111,24 @@ func (s *c39KV) SyncKeyValue() error {
 	}
 	return err
 }
-func (s *c39KV) NewBatch() ethdb.Batch { return &c39Batch{Batch: s.Store.NewBatch(), after: s.after} }
+func (s *c39KV) NewBatch() ethdb.Batch {
+	return &c39Batch{Batch: s.Store.NewBatch(), after: s.after, infl: s.infl}
+}
 func (s *c39KV) NewBatchWithSize(n int) ethdb.Batch {
-	return &c39Batch{Batch: s.Store.NewBatchWithSize(n), after: s.after}
+	return &c39Batch{Batch: s.Store.NewBatchWithSize(n), after: s.after, infl: s.infl}
 }
 
 type c39Batch struct {
 	ethdb.Batch
 	after func()
+	infl  int
+}
+
+func (b *c39Batch) ValueSize() int {
+	if b.infl > 1 {
+		return b.Batch.ValueSize() * b.infl
+	}
+	return b.Batch.ValueSize()
 }
 
 func (b *c39Batch) Write() error {
@@ -134,6 +155,8 @@ type c39Scenario struct {
 	SetHead    *uint64 // SetHead issued before the crash
 	ChunkSeed  uint64
 	TxBlocks   uint64 // bitmask: canonical block i carries a transfer
+	Slots      int    // > 0: genesis holds a storage contract; tx blocks also write Slots fresh slots of it
+	Infl       int    // > 1: batches of the history's database report ValueSize()*Infl (multi-batch commits)
 	CrashSeed  uint64
 	CrashCount int
 }
@@ -146,8 +169,8 @@ func (sc *c39Scenario) String() string {
 	if sc.SetHead != nil {
 		h = fmt.Sprint(*sc.SetHead)
 	}
-	return fmt.Sprintf("%s/snap=%v canon=%d fork=%d side=%d commit=%d cap=%d final=%d pivot=%s sethead=%s", sc.Scheme, sc.Snapshots,
-		sc.CanonL, sc.ForkAt, sc.SideLen, sc.Commit, sc.SnapCap, sc.Finalized, p, h)
+	return fmt.Sprintf("%s/snap=%v canon=%d fork=%d side=%d commit=%d cap=%d final=%d pivot=%s sethead=%s slots=%d infl=%d", sc.Scheme, sc.Snapshots,
+		sc.CanonL, sc.ForkAt, sc.SideLen, sc.Commit, sc.SnapCap, sc.Finalized, p, h, sc.Slots, sc.Infl)
 }
 
 func c39DrawScenario(rt *rapid.T, maxL int) *c39Scenario {
@@ -182,6 +205,16 @@ func c39DrawScenario(rt *rapid.T, maxL int) *c39Scenario {
 	}
 	sc.ChunkSeed = rapid.Uint64().Draw(rt, "chunkSeed")
 	sc.TxBlocks = rapid.Uint64().Draw(rt, "txBlocks")
+	// state shape: accounts only, or a contract whose storage trie grows with every tx block
+	if rapid.IntRange(0, 2).Draw(rt, "hasStorage") > 0 {
+		sc.Slots = rapid.IntRange(1, 16).Draw(rt, "slots")
+	}
+	// batch granularity (hash scheme, whose only crash safety is the write order of the trie
+	// nodes): 0 = real sizes (one batch per commit for these states), otherwise a batch is
+	// "full" after roughly 100KB/Infl bytes, i.e. after every node (2048) up to every ~5 nodes (128)
+	if sc.Scheme == rawdb.HashScheme {
+		sc.Infl = rapid.SampledFrom([]int{0, 128, 512, 2048}).Draw(rt, "infl")
+	}
 	sc.CrashSeed = rapid.Uint64().Draw(rt, "crashSeed")
 	return sc
 }
@@ -203,11 +236,14 @@ type c39Hist struct {
 	side      types.Blocks
 	klog      *crashkv.Log
 	points    []c39Point
+	commitFrom int // log length right before triedb.Commit was called
 	commitAt  int // log length right after triedb.Commit returned (0 = never)
 	setHeadAt int // log length right before SetHead was called (0 = never)
 	byHash    map[common.Hash]*types.Block
 	onCanon   map[common.Hash]bool
 	excluded  int // assertions skipped because of a known finding
+
+	refAccounts, refSlots int // size of the head state of the node that never crashed
 
 	lastFrozen uint64 // Ancients() right after rawdb.Open of the image being checked
 }
@@ -255,12 +291,45 @@ var (
 	c39Addr   = crypto.PubkeyToAddress(c39Key.PublicKey)
 )
 
-func c39Genesis() *Genesis {
-	return &Genesis{
+// c39StoreCode: for i = calldata[0:32]-1 .. 0: SSTORE((NUMBER<<8)|i, calldata[32:64]).
+// Every call writes n slots that no other block height touches.
+var (
+	c39StoreAddr = common.HexToAddress("0xc0de000000000000000000000000000000000039")
+	c39StoreCode = []byte{
+		0x60, 0x00, 0x35, // PUSH1 0 CALLDATALOAD            [n]
+		0x5b,             // JUMPDEST (3)
+		0x80, 0x15, 0x60, 0x1a, 0x57, // DUP1 ISZERO PUSH1 end JUMPI
+		0x60, 0x01, 0x90, 0x03, // PUSH1 1 SWAP1 SUB           [n-1]
+		0x60, 0x20, 0x35, // PUSH1 32 CALLDATALOAD           [n-1 salt]
+		0x43, 0x60, 0x08, 0x1b, // NUMBER PUSH1 8 SHL          [n-1 salt num<<8]
+		0x82, 0x17, // DUP3 OR                              [n-1 salt key]
+		0x55,             // SSTORE
+		0x60, 0x03, 0x56, // PUSH1 3 JUMP
+		0x5b, 0x00, // JUMPDEST (0x1a) STOP
+	}
+)
+
+func c39Genesis(sc *c39Scenario) *Genesis {
+	g := &Genesis{
 		BaseFee: big.NewInt(params.InitialBaseFee),
 		Config:  params.AllEthashProtocolChanges,
 		Alloc:   types.GenesisAlloc{c39Addr: {Balance: new(big.Int).Mul(big.NewInt(1000), big.NewInt(params.Ether))}},
 	}
+	if sc.Slots > 0 {
+		st := map[common.Hash]common.Hash{}
+		for i := 0; i < sc.Slots; i++ {
+			st[common.BigToHash(big.NewInt(int64(i)))] = common.BigToHash(big.NewInt(int64(0x39 + i)))
+		}
+		g.Alloc[c39StoreAddr] = types.Account{Balance: big.NewInt(1), Code: c39StoreCode, Storage: st}
+	}
+	return g
+}
+
+// c39StoreTx calls the storage contract: n fresh slots set to salt.
+func c39StoreTx(b *BlockGen, signer types.Signer, key *ecdsa.PrivateKey, n int, salt int64) *types.Transaction {
+	data := append(common.BigToHash(big.NewInt(int64(n))).Bytes(), common.BigToHash(big.NewInt(salt)).Bytes()...)
+	return types.MustSignNewTx(key, signer, &types.LegacyTx{Nonce: b.TxNonce(c39Addr), To: &c39StoreAddr, Data: data,
+		Gas: uint64(100000 + 25000*n), GasPrice: new(big.Int).Add(b.BaseFee(), big.NewInt(1))})
 }
 
 func c39Option(sc *c39Scenario) *BlockChainConfig {
@@ -274,14 +343,17 @@ func c39Option(sc *c39Scenario) *BlockChainConfig {
 	return o
 }
 
-func c39MakeBlocks(sc *c39Scenario, gspec *Genesis, key *ecdsa.PrivateKey) (canon, side types.Blocks) {
+func c39MakeBlocks(sc *c39Scenario, gspec *Genesis, key *ecdsa.PrivateKey) (canon, side types.Blocks, genDb ethdb.Database) {
 	engine := ethash.NewFaker()
 	signer := types.LatestSigner(gspec.Config)
-	genDb, canon, _ := GenerateChainWithGenesis(gspec, engine, sc.CanonL, func(i int, b *BlockGen) {
+	genDb, canon, _ = GenerateChainWithGenesis(gspec, engine, sc.CanonL, func(i int, b *BlockGen) {
 		b.SetCoinbase(common.Address{0x02})
 		if sc.TxBlocks&(1<<uint(i%64)) != 0 {
 			tx := types.MustSignNewTx(key, signer, &types.LegacyTx{Nonce: b.TxNonce(c39Addr), To: &common.Address{0xee}, Value: big.NewInt(1), Gas: params.TxGas, GasPrice: new(big.Int).Add(b.BaseFee(), big.NewInt(1))})
 			b.AddTx(tx)
+			if sc.Slots > 0 {
+				b.AddTx(c39StoreTx(b, signer, key, sc.Slots, int64(0x1000+i)))
+			}
 		}
 	})
 	if sc.SideLen > 0 {
@@ -294,10 +366,13 @@ func c39MakeBlocks(sc *c39Scenario, gspec *Genesis, key *ecdsa.PrivateKey) (cano
 			if i%3 == 1 {
 				tx := types.MustSignNewTx(key, signer, &types.LegacyTx{Nonce: b.TxNonce(c39Addr), To: &common.Address{0xef}, Value: big.NewInt(2), Gas: params.TxGas, GasPrice: new(big.Int).Add(b.BaseFee(), big.NewInt(1))})
 				b.AddTx(tx)
+				if sc.Slots > 0 {
+					b.AddTx(c39StoreTx(b, signer, key, 1+sc.Slots/2, int64(0x51de00+i)))
+				}
 			}
 		})
 	}
-	return canon, side
+	return canon, side, genDb
 }
 
 // c39T is satisfied by *rapid.T and *testing.T.
@@ -313,9 +388,31 @@ type c39Freezer interface {
 // c39RunHistory executes the scenario on a recording store and captures crash points.
 // wantPoints < 0 captures a crash point at every key-value event.
 func c39RunHistory(rt c39T, sc *c39Scenario, wantPoints int) *c39Hist {
-	h := &c39Hist{sc: sc, gspec: c39Genesis(), option: c39Option(sc), klog: crashkv.NewLog(),
+	h := &c39Hist{sc: sc, gspec: c39Genesis(sc), option: c39Option(sc), klog: crashkv.NewLog(),
 		byHash: map[common.Hash]*types.Block{}, onCanon: map[common.Hash]bool{}}
-	h.canon, h.side = c39MakeBlocks(sc, h.gspec, c39Key)
+	var genDb ethdb.Database
+	h.canon, h.side, genDb = c39MakeBlocks(sc, h.gspec, c39Key)
+	// the node that never crashed: the chain maker's own database holds every state
+	{
+		ref := triedb.NewDatabase(genDb, triedb.HashDefaults)
+		var err error
+		if h.refAccounts, h.refSlots, err = c39IterateState(ref, genDb, h.canon[sc.CanonL-1].Root()); err != nil {
+			rt.Fatalf("VERIF-HARNESS-BUG: reference head state does not iterate: %v", err)
+		}
+		ref.Close()
+		wantSlots := 0
+		if sc.Slots > 0 {
+			wantSlots = sc.Slots
+			for i := 0; i < sc.CanonL; i++ {
+				if sc.TxBlocks&(1<<uint(i%64)) != 0 {
+					wantSlots += sc.Slots
+				}
+			}
+		}
+		if h.refSlots != wantSlots {
+			rt.Fatalf("VERIF-HARNESS-BUG: reference head state has %d storage slots, the generator intended %d (%s)", h.refSlots, wantSlots, sc)
+		}
+	}
 	for _, b := range h.canon {
 		h.byHash[b.Hash()] = b
 		h.onCanon[b.Hash()] = true
@@ -347,8 +444,17 @@ func c39RunHistory(rt c39T, sc *c39Scenario, wantPoints int) *c39Hist {
 		h.points = append(h.points, c39Point{event: h.klog.Len(), files: snap, label: label})
 	}
 	phase := "open"
-	kv := &c39KV{Store: crashkv.Wrap(memorydb.New(), h.klog)}
+	kv := &c39KV{Store: crashkv.Wrap(memorydb.New(), h.klog), infl: sc.Infl}
+	// Every key-value event of the explicit state commit (= every batch write of it) is a
+	// candidate crash point; a PRNG-chosen subset is kept once the commit has returned.
+	var commitCands []c39Point
 	kv.after = func() {
+		if phase == "commit" && wantPoints >= 0 {
+			pts := h.points
+			capture(phase)
+			commitCands, h.points = append(commitCands, h.points[len(pts):]...), pts
+			return
+		}
 		if force || wantPoints < 0 || rng.Float64() < prob {
 			force = false
 			capture(phase)
@@ -396,11 +502,19 @@ func c39RunHistory(rt c39T, sc *c39Scenario, wantPoints int) *c39Hist {
 		}
 		if sc.Commit > 0 && i == sc.Commit && h.commitAt == 0 {
 			phase = "commit"
+			h.commitFrom = h.klog.Len()
 			if err := chain.triedb.Commit(h.canon[i-1].Root(), false); err != nil {
 				rt.Fatalf("VERIF-HARNESS-BUG: triedb.Commit failed: %v", err)
 			}
 			h.commitAt = h.klog.Len()
 			h.klog.Mark("commit-done")
+			phase = "committed"
+			keep := wantPoints/2 + 1
+			rng.Shuffle(len(commitCands), func(a, b int) { commitCands[a], commitCands[b] = commitCands[b], commitCands[a] })
+			if len(commitCands) > keep {
+				commitCands = commitCands[:keep]
+			}
+			h.points = append(h.points, commitCands...)
 		}
 		if sc.SnapCap > 0 && i == sc.SnapCap && chain.snaps != nil {
 			phase = "snapcap"
@@ -435,6 +549,7 @@ func c39RunHistory(rt c39T, sc *c39Scenario, wantPoints int) *c39Hist {
 	}
 	// the crash at the very end ("pull the plug", as the repair tests do)
 	capture("end")
+	sort.SliceStable(h.points, func(a, b int) bool { return h.points[a].event < h.points[b].event })
 	// self-check of the recording layer: replaying the whole log reproduces the store
 	if d := c39DiffKV(h.klog.Materialize(h.klog.Len()), kv.Store.Inner()); d != "" {
 		rt.Fatalf("VERIF-HARNESS-BUG: replay of the complete key-value log differs from the live store: %s", d)
@@ -611,10 +726,14 @@ func (h *c39Hist) reopen(rt c39T, img c39Image) (nontrivial bool, class string) 
 	}
 	defer chain.Stop()
 
-	nontrivial = frozen > P+1 || sc.ForkAt+sc.SideLen > sc.CanonL
+	midCommit := h.commitAt > 0 && h.commitFrom < img.prefix && img.prefix < h.commitAt
+	nontrivial = frozen > P+1 || sc.ForkAt+sc.SideLen > sc.CanonL || midCommit
 	class = "kill"
 	if img.prefix < img.point.event {
 		class = "powerloss"
+	}
+	if midCommit {
+		class += "+mid-commit" // some but not all batch writes of the state commit survived
 	}
 
 	H := chain.CurrentBlock()
@@ -637,8 +756,8 @@ func (h *c39Hist) reopen(rt c39T, img c39Image) (nontrivial bool, class string) 
 	if !chain.HasState(H.Root) {
 		h.failf(rt, img, "state of the head block #%d is not available after recovery", H.Number)
 	}
-	if err := c39IterateState(chain, H.Root); err != nil {
-		h.failf(rt, img, "state of the head block #%d cannot be iterated: %v", H.Number, err)
+	if _, _, err := c39IterateState(chain.triedb, db, H.Root); err != nil {
+		h.failf(rt, img, "state of the head block #%d (HasState says available) is incomplete: %v", H.Number, err)
 	}
 	// (2) header >= snap block >= block, on one chain
 	if hdr.Number.Uint64() < snapB.Number.Uint64() || snapB.Number.Uint64() < H.Number.Uint64() {
@@ -675,8 +794,15 @@ func (h *c39Hist) reopen(rt c39T, img c39Image) (nontrivial bool, class string) 
 	if !chain.HasState(last.Root()) {
 		h.failf(rt, img, "after re-import the head state is not available")
 	}
-	if err := c39IterateState(chain, last.Root()); err != nil {
-		h.failf(rt, img, "after re-import the head state cannot be iterated: %v", err)
+	accs, slots, err := c39IterateState(chain.triedb, db, last.Root())
+	if err != nil {
+		h.failf(rt, img, "after re-import the head state is incomplete: %v", err)
+	}
+	if h.refAccounts == 0 {
+		rt.Fatalf("VERIF-HARNESS-BUG: reference state size not recorded")
+	}
+	if accs != h.refAccounts || slots != h.refSlots {
+		h.failf(rt, img, "after re-import the head state has %d accounts / %d storage slots, the node that never crashed has %d / %d", accs, slots, h.refAccounts, h.refSlots)
 	}
 	if chain.snaps != nil {
 		if err := chain.snaps.Verify(last.Root()); err != nil {
@@ -762,19 +888,56 @@ func (h *c39Hist) checkCanonical(rt c39T, img c39Image, chain *BlockChain, db et
 	}
 }
 
-// c39IterateState walks the whole account trie (resolving every node by hash).
-func c39IterateState(chain *BlockChain, root common.Hash) error {
-	t, err := trie.NewStateTrie(trie.StateTrieID(root), chain.triedb)
+// c39IterateState walks the whole state below root, resolving every trie node: the
+// account trie, the storage trie of every account that has one, and the code of every
+// contract. It returns the number of accounts and storage slots reached.
+func c39IterateState(tdb *triedb.Database, db ethdb.KeyValueReader, root common.Hash) (accounts, slots int, err error) {
+	t, err := trie.NewStateTrie(trie.StateTrieID(root), tdb)
 	if err != nil {
-		return err
+		return 0, 0, err
 	}
 	it, err := t.NodeIterator(nil)
 	if err != nil {
-		return err
+		return 0, 0, err
 	}
 	for it.Next(true) {
+		if !it.Leaf() {
+			continue
+		}
+		accounts++
+		var acc types.StateAccount
+		if err := rlp.DecodeBytes(it.LeafBlob(), &acc); err != nil {
+			return accounts, slots, fmt.Errorf("account leaf %x does not decode: %v", it.LeafKey(), err)
+		}
+		owner := common.BytesToHash(it.LeafKey())
+		if acc.Root != types.EmptyRootHash {
+			st, err := trie.NewStateTrie(trie.StorageTrieID(root, owner, acc.Root), tdb)
+			if err != nil {
+				return accounts, slots, fmt.Errorf("storage trie of account %x: %v", owner.Bytes()[:4], err)
+			}
+			sit, err := st.NodeIterator(nil)
+			if err != nil {
+				return accounts, slots, fmt.Errorf("storage trie of account %x: %v", owner.Bytes()[:4], err)
+			}
+			for sit.Next(true) {
+				if sit.Leaf() {
+					slots++
+				}
+			}
+			if sit.Error() != nil {
+				return accounts, slots, fmt.Errorf("storage trie of account %x: %v", owner.Bytes()[:4], sit.Error())
+			}
+		}
+		if ch := common.BytesToHash(acc.CodeHash); ch != types.EmptyCodeHash {
+			if len(rawdb.ReadCode(db, ch)) == 0 {
+				return accounts, slots, fmt.Errorf("code %x of account %x is missing", ch.Bytes()[:4], owner.Bytes()[:4])
+			}
+		}
 	}
-	return it.Error()
+	if it.Error() != nil {
+		return accounts, slots, fmt.Errorf("account trie: %v", it.Error())
+	}
+	return accounts, slots, nil
 }
 
 // ---------------------------------------------------------------------------
@@ -789,6 +952,21 @@ func c39Case(rt *rapid.T, st *vs.S, maxL, points int) {
 	c.Classf("sethead:%v", sc.SetHead != nil)
 	c.Classf("freeze:%v", sc.Finalized > 0)
 	c.Classf("pivot:%v", sc.Pivot != nil)
+	c.Classf("storage:%v", sc.Slots > 0)
+	if sc.Scheme == rawdb.HashScheme {
+		c.Classf("batch-inflation:%d", sc.Infl)
+		if sc.Commit > 0 {
+			n := h.commitAt - h.commitFrom
+			switch {
+			case n <= 1:
+				c.Class("commit-batches:1")
+			case n <= 4:
+				c.Class("commit-batches:2-4")
+			default:
+				c.Class("commit-batches:5+")
+			}
+		}
+	}
 	anyNT := false
 	var descs []string
 	// Kill vs power loss and the lost suffix come from a PRNG seeded by the drawn crash
@@ -797,7 +975,9 @@ func c39Case(rt *rapid.T, st *vs.S, maxL, points int) {
 	for _, p := range h.points {
 		lo := h.klog.LastSync(p.event)
 		prefix := p.event // process kill: nothing lost
-		if irng.Intn(3) > 0 && lo < p.event {
+		// (points inside the state commit are always kill images: an earlier prefix within the
+		// commit is the kill image of an earlier batch write of it, and those are sampled uniformly)
+		if p.label != "commit" && irng.Intn(3) > 0 && lo < p.event {
 			prefix = lo + irng.Intn(p.event-lo+1) // power failure: unsynced suffix lost
 			// boundary choice: everything up to the explicit state commit survived, nothing after
 			if h.commitAt >= lo && h.commitAt < p.event && irng.Intn(3) == 0 {
@@ -864,6 +1044,9 @@ func c39Fixed() []*c39Scenario {
 		{Scheme: rawdb.PathScheme, Snapshots: false, CanonL: 8, ForkAt: 0, SideLen: 10, Commit: 4, Finalized: 6, SetHead: u(5), TxBlocks: 0xaa},
 		{Scheme: rawdb.HashScheme, Snapshots: false, CanonL: 18, Commit: 4, Finalized: 10, SetHead: u(8), TxBlocks: 0x0f0f},
 		{Scheme: rawdb.PathScheme, Snapshots: true, CanonL: 12, ForkAt: 6, SideLen: 4, Commit: 8, Finalized: 9, Pivot: u(4), TxBlocks: 0x3c3c},
+		// hash scheme, contract storage, a batch is full after every 1-2 trie nodes: the explicit
+		// commit is spread over dozens of batch writes and each of them is a crash point
+		{Scheme: rawdb.HashScheme, Snapshots: false, CanonL: 7, Commit: 5, Finalized: 3, TxBlocks: 0x7f, Slots: 6, Infl: 512},
 	}
 }
 
@@ -874,7 +1057,7 @@ func TestVerifC39EveryEvent(t *testing.T) {
 	st := vs.New("C39", t)
 	scs := c39Fixed()
 	if !vs.Thorough() {
-		scs = scs[1:3]
+		scs = append(scs[1:3:3], scs[4])
 	}
 	var collect *c39Collector
 	if os.Getenv("VERIF_C39_COLLECT") != "" {
